@@ -63,6 +63,10 @@ type Writer struct {
 	inStream    bool
 	afterStream []allocatedObject
 
+	// closed is set once Close has written the cross-reference data; objects
+	// written after that could never be found by a reader.
+	closed bool
+
 	outputOptions OutputOptions
 
 	// documentMetadata captures the *MetadataStream pointer supplied
@@ -311,6 +315,9 @@ func NewWriter(w io.Writer, v Version, opt *WriterOptions) (*Writer, error) {
 // Close closes the Writer, flushing any unwritten data to the underlying
 // io.Writer.
 func (w *Writer) Close() error {
+	if w.closed {
+		return errWriterClosed
+	}
 	if w.inStream {
 		return errors.New("Close() while stream is open")
 	}
@@ -373,6 +380,8 @@ func (w *Writer) Close() error {
 	if err != nil {
 		return err
 	}
+
+	w.closed = true
 
 	err = w.w.w.Flush()
 	if err != nil {
@@ -508,6 +517,9 @@ func (w *Writer) scannerFrom(pos int64, canObjStm bool) (*scanner, error) {
 
 // Put writes an indirect object to the PDF file, using the given reference.
 func (w *Writer) Put(ref Reference, obj Object) error {
+	if w.closed {
+		return errWriterClosed
+	}
 	if w.inStream {
 		w.afterStream = append(w.afterStream, allocatedObject{ref, obj})
 		return nil
@@ -564,6 +576,9 @@ func (w *Writer) Put(ref Reference, obj Object) error {
 // object streams are not available, the objects are written directly into the
 // PDF file, without compression.
 func (w *Writer) WriteCompressed(refs []Reference, objects ...Object) error {
+	if w.closed {
+		return errWriterClosed
+	}
 	if w.inStream {
 		return errors.New("WriteCompressed() while stream is open")
 	}
@@ -665,6 +680,8 @@ func (w *Writer) WriteCompressed(refs []Reference, objects ...Object) error {
 	return nil
 }
 
+var errWriterClosed = errors.New("pdf.Writer is closed")
+
 // maxObjStmMembers is the largest number of objects an object stream may
 // hold (see getObjStm).
 const maxObjStmMembers = 10000
@@ -703,6 +720,9 @@ func checkCompressed(refs []Reference, objects []Object) error {
 //
 // If /Length is absent, the writer determines the value itself.
 func (w *Writer) OpenStream(ref Reference, dict Dict, filters ...Filter) (io.WriteCloser, error) {
+	if w.closed {
+		return nil, errWriterClosed
+	}
 	if w.inStream {
 		return nil, errors.New("OpenStream() while stream is open")
 	}
